@@ -135,3 +135,15 @@ Definition cv_buffer_address_refetch (total size : Z) (cell : nat) : prog Z :=
     (Tick (rd_bytes cell 4 [] (fun bs =>
        let r := le4 bs in
        if r =? 0 then cv_address cell else Chk (r + size <=? total) (Tick (cv_address cell))))).
+
+(* copy_and_verify on a pointer CELL that lies in sandbox memory, to an el-byte object: cv.ptr.fetch ; ONE fetch of the cell ;
+   null: the verifier gets nullptr ; cv.ptr.read ; read of the object the FETCHED value designates ; cv.ptr.verifier.
+   [woff r]: window offset designated by representation r (None: outside the window) *)
+Definition cv_ptr_cell (woff : Z -> option nat) (elsz cell : nat) : prog (option (list Z)) :=
+  Tick (rd_bytes cell 4 [] (fun bs =>
+    let r := le4 bs in
+    if r =? 0 then Ret None else
+    match woff r with
+    | None => Flt
+    | Some off => Tick (rd_bytes off elsz [] (fun e => Tick (Ret (Some e))))
+    end)).
